@@ -44,6 +44,7 @@ type verifTab struct {
 	ULenMid        int   `json:"ulenmid"`
 	ULenBig        int   `json:"ulenbig"`
 	BigFrom        int   `json:"bigfrom"`
+	ExactFrom      int   `json:"exactfrom"`
 	RefLen         []int `json:"reflen"`
 	ManifestDigest int   `json:"manifestdigest"`
 	Pf             []struct {
@@ -56,10 +57,16 @@ type verifTab struct {
 	MaxSize   int      `json:"maxsize"`
 }
 
+type verifPre struct {
+	K string `json:"k"`
+	U int    `json:"u"`
+}
+
 type verifEntry struct {
-	D       int   `json:"d"`
-	URLs    []int `json:"urls"`
-	IsLayer bool  `json:"isLayer"`
+	D       int        `json:"d"`
+	URLs    []int      `json:"urls"`
+	IsLayer bool       `json:"isLayer"`
+	Pre     []verifPre `json:"pre"` // annotations the descriptor already carries in the manifest
 }
 
 type verifTamper struct {
@@ -150,6 +157,8 @@ func (w *verifWorld) ulen(u int) int {
 	switch {
 	case u == 0:
 		return 0
+	case u >= w.tab.ExactFrom:
+		return u - w.tab.ExactFrom
 	case u <= len(w.tab.ULen):
 		return w.tab.ULen[u-1]
 	case u < w.tab.BigFrom:
@@ -170,6 +179,17 @@ func (w *verifWorld) urlOf(u int) string {
 		s += strings.Repeat("x", n-len(s))
 	}
 	w.tok2id[s] = u
+	return s
+}
+
+// the foreign value a manifest pre-set under a non-URL key: the model's token -u, same length as URL u, and
+// neither a reference, a digest nor a number
+func (w *verifWorld) garbageOf(u int) string {
+	s := fmt.Sprintf("not a value %d ", u)
+	if n := w.ulen(u); n > len(s) {
+		s += strings.Repeat("?", n-len(s))
+	}
+	w.tok2id[s] = -u
 	return s
 }
 
@@ -345,6 +365,16 @@ func verifRunCase(tab verifTab, c verifCase, reader GetSources) (*verifEvent, er
 		}
 		for _, u := range e.URLs {
 			desc.URLs = append(desc.URLs, w.urlOf(u))
+		}
+		for _, p := range e.Pre {
+			if desc.Annotations == nil {
+				desc.Annotations = map[string]string{}
+			}
+			if p.K == targetURLsLabel || strings.HasPrefix(p.K, targetImageURLsLabelPrefix) {
+				desc.Annotations[p.K] = w.urlOf(p.U)
+			} else {
+				desc.Annotations[p.K] = w.garbageOf(p.U)
+			}
 		}
 		mf.Layers = append(mf.Layers, desc)
 	}
